@@ -145,7 +145,7 @@ theorem diffcHere_nonneg {s : Setup} (h : s.Valid) : 0 ≤ diffcHere s := by
   obtain ⟨_, h1, h2⟩ := h
   unfold diffcHere; positivity
 
-theorem davUpd_nonneg {dav : Rat} {c nb : Cell} (hd : 0 ≤ dav) (hc : c.Valid) (hn : nb.Valid) : 0 ≤ davUpd dav c nb := by
+theorem davUpd_nonneg {dav : Rat} {c nb : Cell} (_hd : 0 ≤ dav) (hc : c.Valid) (hn : nb.Valid) : 0 ≤ davUpd dav c nb := by
   obtain ⟨hc1, hc2⟩ := hc
   obtain ⟨hn1, hn2⟩ := hn
   unfold davUpd
@@ -646,19 +646,17 @@ end pure
 
 
 
-/-- with flow and non-zero dispersivities of both cells the stale `dav` is overwritten: the factor does not depend on it -/
-theorem neighbourMix_flow {s : Setup} (hm : s.moving = true) (dav : Rat) {c nb : Cell} (hc : c.disp ≠ 0) (hn : nb.disp ≠ 0) :
-    neighbourMix s dav c nb =
-      ((dispPart true (c.len / c.disp + nb.len / nb.disp) + diffcHere s / (c.len * c.len + c.len * nb.len)) * corrDisp s,
-       c.len / c.disp + nb.len / nb.disp) := by
-  simp [neighbourMix, newDav, davUpd, hm, hc, hn]
+/-- the harmonic term of a pair does not depend on the order of the two cells nor on the incoming `dav` -/
+theorem davUpd_symm (d1 d2 : Rat) (c nb : Cell) : davUpd d1 c nb = davUpd d2 nb c := by
+  unfold davUpd
+  by_cases h1 : c.disp = 0 <;> by_cases h2 : nb.disp = 0 <;> simp [h1, h2, add_comm]
 
-theorem neighbourMix_flow_symm {s : Setup} (hm : s.moving = true) (d1 d2 : Rat) {c nb : Cell} (hc : c.disp ≠ 0) (hn : nb.disp ≠ 0)
+theorem neighbourMix_flow_symm {s : Setup} (hm : s.moving = true) (d1 d2 : Rat) {c nb : Cell}
     (hl : c.len = nb.len) : (neighbourMix s d1 c nb).1 = (neighbourMix s d2 nb c).1 := by
-  rw [neighbourMix_flow hm d1 hc hn, neighbourMix_flow hm d2 hn hc, hl, add_comm (nb.len / c.disp)]
+  simp only [neighbourMix, newDav, hm, if_true, davUpd_symm d1 d2 c nb, hl]
 
 theorem cellLoop_sym_flow {s : Setup} (hm : s.moving = true) {L : Rat} : ∀ (rest : List Cell) (c : Cell) (prev : Option Cell) (dav : Rat),
-    (c.len = L ∧ c.disp ≠ 0) → (∀ x ∈ rest, x.len = L ∧ x.disp ≠ 0) → (∀ p, prev = some p → p.len = L ∧ p.disp ≠ 0) →
+    c.len = L → (∀ x ∈ rest, x.len = L) → (∀ p, prev = some p → p.len = L) →
     SymP (match prev with | none => 0 | some pv => (neighbourMix s 0 pv c).1) (cellLoop s prev (c :: rest) dav) := by
   intro rest
   induction rest with
@@ -667,9 +665,8 @@ theorem cellLoop_sym_flow {s : Setup} (hm : s.moving = true) {L : Rat} : ∀ (re
     cases prev with
     | none => simp [cellLoop, hiBlock, loBlock, SymP]
     | some pv =>
-      obtain ⟨hpl, hpd⟩ := hp pv rfl
       simp only [cellLoop, hiBlock, loBlock, SymP, and_true]
-      exact neighbourMix_flow_symm hm _ _ hc.2 hpd (by rw [hc.1, hpl])
+      exact neighbourMix_flow_symm hm _ _ (by rw [hc, hp pv rfl])
   | cons nx t ih =>
     intro c prev dav hc hr hp
     have hnx := hr nx (by simp)
@@ -680,15 +677,13 @@ theorem cellLoop_sym_flow {s : Setup} (hm : s.moving = true) {L : Rat} : ∀ (re
     · cases prev with
       | none => simp [loBlock]
       | some pv =>
-        obtain ⟨hpl, hpd⟩ := hp pv rfl
         simp only [loBlock]
-        exact neighbourMix_flow_symm hm _ _ hc.2 hpd (by rw [hc.1, hpl])
+        exact neighbourMix_flow_symm hm _ _ (by rw [hc, hp pv rfl])
     · simp only [hiBlock]
       have e : (neighbourMix s dav c nx).1 = (neighbourMix s 0 c nx).1 := by
-        rw [neighbourMix_flow hm dav hc.2 hnx.2, neighbourMix_flow hm 0 hc.2 hnx.2]
+        simp only [neighbourMix, newDav, hm, if_true, davUpd_symm dav 0 c nx, davUpd_symm 0 0 nx c]
       rw [e]
       exact this
-
 
 theorem dropLast_sum_add_getLast : ∀ (l : List Rat) (h : l ≠ []), l.dropLast.sum + l.getLast h = l.sum := by
   intro l h
